@@ -190,6 +190,17 @@ let parse (input : S.t) : parsed =
 let max_depth = nat_of_int 100
 let fuel = nat_of_int 100000
 
+(* every Field node of the document: (id, name, args) *)
+let rec fields_of_sel acc = function
+  | SField (id, _, name, args, _, sels) -> List.fold_left fields_of_sel ((id, name, args) :: acc) sels
+  | SInline (_, _, _, sels) -> List.fold_left fields_of_sel acc sels
+  | SFrag _ -> acc
+
+let printed_changed (p : parsed) (st : st) : bool =
+  let fs = List.fold_left (fun acc o -> List.fold_left fields_of_sel acc o.op_sels) [] p.doc.d_ops in
+  let fs = List.fold_left (fun acc (_, fr) -> List.fold_left fields_of_sel acc fr.fr_sels) fs p.doc.d_frags in
+  List.exists (fun (id, name, args) -> Model.printed_args p.schema st.s_args id name args <> args) fs
+
 let run_model (p : parsed) : S.t =
   let st = ref { s_args = []; s_calls = [] } in
   let outs = List.map (fun (name, vars) ->
@@ -202,8 +213,73 @@ let run_model (p : parsed) : S.t =
       match Model.exec_op p.schema p.graph p.any max_depth fuel p.doc name vars rootobj !st with
       | OutOfFuel -> S.L [S.A "diverge"]
       | Done (r, st') -> st := st'; sexp_of_resp r) p.calls in
-  S.L outs
+  S.L (outs @ [S.L [S.A "printed"; S.A (if printed_changed p !st then "changed" else "same")]])
+
+let has_fragseg (e : S.t) : bool =
+  match e with
+  | S.L [S.A "e"; S.L path; _; _] -> List.exists (function S.L [S.A "fa"; _] -> true | _ -> false) path
+  | _ -> false
+
+let strip_sexp_err (e : S.t) : S.t =
+  match e with
+  | S.L [S.A "e"; S.L path; loc; k] ->
+    S.L [S.A "e"; S.L (List.filter (function S.L [S.A "fa"; _] -> false | _ -> true) path); loc; k]
+  | x -> x
+
+(* the specification (ExecSpec.sem_op) evaluated on the case; stateless, so every call of a
+   history is specified independently of the calls before it *)
+let run_spec (p : parsed) : (S.t * bool) list =
+  List.map (fun (name, vars) ->
+      let rootobj =
+        match Model.choose_op p.doc name with
+        | Some o ->
+          let n = (match o.op_kind with OpQuery -> fst p.roots | _ -> snd p.roots) in
+          if n < 0 then GNil else if p.strat_r n then GNodeR (nat_of_int n) else GNodeA (nat_of_int n)
+        | None -> GNil in
+      match Model.sem_op p.schema p.graph p.any max_depth fuel p.doc name vars rootobj with
+      | OutOfFuel -> (S.L [S.A "diverge"], true)
+      | Done r ->
+        let nodup = (match r.r_data with Some d -> Model.nodup_keys d | None -> true) in
+        (sexp_of_resp r, nodup)) p.calls
+
+let oracle (prop : string) (p : parsed) (observed : S.t) : string =
+  let spec = run_spec p in
+  if not (Model.wf_doc p.schema p.doc) then "holds:outside-claim-undeclared-or-repeated-argument" else
+  let observed, printed =
+    (match observed with
+     | S.L l when l <> [] ->
+       (match List.rev l with
+        | S.L [S.A "printed"; S.A x] :: rest -> (S.L (List.rev rest), x)
+        | _ -> (observed, "same"))
+     | _ -> (observed, "same")) in
+  match observed with
+  | S.L obs when List.length obs = List.length spec ->
+    let verdicts = List.map2 (fun o (sp, nodup) ->
+        match o, sp with
+        | S.L [S.A "resp"; od; S.L oe; S.L oc], S.L [S.A "resp"; sd; S.L se; S.L sc] ->
+          let data_ok = S.to_string od = S.to_string sd in
+          let calls_ok = S.to_string (S.L oc) = S.to_string (S.L sc) in
+          let oes = sorted_sexps (List.map strip_sexp_err oe) in
+          let errs_ok = S.to_string (S.L oes) = S.to_string (S.L (sorted_sexps se)) in
+          let fragseg = List.exists has_fragseg oe in
+          let check_data = List.mem prop ["C01"; "C08"; "C09"; "C11"; "C02"; "C06"; "C10"] in
+          let check_calls = List.mem prop ["C01"; "C09"; "C10"; "C11"; "C02"] in
+          let check_errs = List.mem prop ["C06"; "C10"; "C11"; "C02"] in
+          if not nodup then (if prop = "C01" then "fails:dupkey-selections-with-one-response-key-not-merged" else "holds")
+          else if check_data && not data_ok then "fails:data-differs-from-selection-semantics"
+          else if check_calls && not calls_ok then "fails:resolver-calls-differ-from-selection-semantics"
+          else if check_errs && not errs_ok then "fails:errors-differ-(path-location-kind-multiset)"
+          else if prop = "C06" && fragseg then "fails:errpath-fragment-segment-in-error-path"
+          else "holds"
+        | S.L [S.A "diverge"], _ | _, S.L [S.A "diverge"] -> "fails:diverge"
+        | S.L (S.A "panic" :: _), _ -> "fails:panic"
+        | _, _ -> "fails:malformed-observation") obs spec in
+    (match List.find_opt (fun v -> v <> "holds") verdicts with
+     | Some v -> v
+     | None -> if prop = "C11" && printed <> "same" then "fails:printed-form-of-the-executable-changed" else "holds")
+  | S.L (S.A "panic" :: _) -> "fails:panic"
+  | _ -> "fails:malformed-observation"
 
 let run (prop : string) (input : S.t) (observed : S.t) : S.t * string =
   let p = parse input in
-  (run_model p, "holds")
+  (run_model p, oracle prop p observed)
